@@ -144,6 +144,11 @@ func MarshalValue(ctx Ctx, value reflect.Value, cont Proc) Proc {
 				return v.MarshalSB(ctx, cont), nil
 
 			case encoding.BinaryMarshaler:
+				if value.Kind() == reflect.Ptr && value.IsNil() {
+					// calling a value-receiver method through a nil pointer panics
+					*token = Nil
+					return cont, nil
+				}
 				bs, err := v.MarshalBinary()
 				if err != nil {
 					return nil, we.With(e5.With(MarshalError), WithPath(ctx))(err)
@@ -151,6 +156,10 @@ func MarshalValue(ctx Ctx, value reflect.Value, cont Proc) Proc {
 				return ctx.Marshal(ctx, reflect.ValueOf(string(bs)), cont), nil
 
 			case encoding.TextMarshaler:
+				if value.Kind() == reflect.Ptr && value.IsNil() {
+					*token = Nil
+					return cont, nil
+				}
 				bs, err := v.MarshalText()
 				if err != nil {
 					return nil, we.With(e5.With(MarshalError), WithPath(ctx))(err)
